@@ -3,8 +3,10 @@ import copy, random, warnings
 from . import gallina as G
 from . import common as C
 from .hgsim import rattr, ATTR_KEYS, ATTR_VALS, dedup_named, peek_uid
+from . import hgsim as _H
 
 ITER_OK = True     # member collections may be presented as tuples / one-shot iterators (common.members)
+INTLIKE_OK = True  # explicit integer ids may be presented as numpy integers / whole floats (hgsim.PRESENT)
 STYLES = ["int", "int", "str", "mixed"]
 
 
@@ -136,12 +138,12 @@ def bunch_arg(fmt, items):
     if fmt == 1:
         return [(C.members(t), C.members(h)) for t, h in items]
     if fmt == 2:
-        return [((C.members(t), C.members(h)), i) for t, h, i in items]
+        return [((C.members(t), C.members(h)), _H._pres(i)) for t, h, i in items]
     if fmt == 3:
         return [((C.members(t), C.members(h)), dict(a)) for t, h, a in items]
     if fmt == 4:
-        return [((C.members(t), C.members(h)), i, dict(a)) for t, h, i, a in items]
-    return {i: (C.members(t), C.members(h)) for i, (t, h) in items}
+        return [((C.members(t), C.members(h)), _H._pres(i), dict(a)) for t, h, i, a in items]
+    return {_H._pres(i): (C.members(t), C.members(h)) for i, (t, h) in items}
 
 
 def apply_op(H, op):
@@ -156,7 +158,7 @@ def apply_op(H, op):
                 if idx is None:
                     H.add_edge((C.members(t), C.members(h)), **a)
                 else:
-                    H.add_edge((C.members(t), C.members(h)), idx=idx, **a)
+                    H.add_edge((C.members(t), C.members(h)), idx=_H._pres(idx), **a)
             elif name == "add_edges_from":
                 H.add_edges_from(bunch_arg(op[1], op[2]), **op[3])
             elif name == "add_node":
@@ -266,25 +268,25 @@ def observe(H):
     try:
         nodes = list(H.nodes)
         dm = H.nodes.dimemberships()
-        ob["nodes"] = [(n, (set(dm[n][0]), set(dm[n][1]))) for n in nodes]   # (in, out)
+        ob["nodes"] = [(n, (_H._norm(set(dm[n][0])), _H._norm(set(dm[n][1])))) for n in nodes]   # (in, out)
         na = []
         for n in nodes:
             try:
-                na.append(dict(H.nodes[n]))
+                na.append(_H._norm(dict(H.nodes[n])))
             except IDNotFound:
                 na.append(None)
         ob["nattr"] = na
         edges = list(H.edges)
         mem = H.edges.dimembers(dtype=dict)
-        ob["edges"] = [(e, (set(mem[e][0]), set(mem[e][1]))) for e in edges]  # (tail, head)
+        ob["edges"] = [(_H._norm(e), (set(mem[e][0]), set(mem[e][1]))) for e in edges]  # (tail, head)
         ea = []
         for e in edges:
             try:
-                ea.append(dict(H.edges[e]))
+                ea.append(_H._norm(dict(H.edges[e])))
             except IDNotFound:
                 ea.append(None)
         ob["eattr"] = ea
-        ob["net"] = dict(H._net_attr)
+        ob["net"] = _H._norm(dict(H._net_attr))
         ob["uid"] = peek_uid(H)
     except Exception as e:  # noqa: BLE001
         ob["broken"] = f"{type(e).__name__}: {e}"
@@ -312,7 +314,7 @@ def run_history(ops_or_gen, length=None, rng=None, style=None, malformed=False, 
     for i in range(n):
         if freeze_at is not None and i == freeze_at:
             H.freeze()
-        op = gen_op(rng, H, nodes, eids, malformed) if ops_or_gen is None else ops_or_gen[i]
+        op = _H._norm(gen_op(rng, H, nodes, eids, malformed)) if ops_or_gen is None else ops_or_gen[i]
         extra, exc, nwarn = apply_op(H, op)
         ob = observe(H)
         rec["ops"].append(op); rec["extras"].append(extra); rec["obs"].append(ob)
